@@ -44,6 +44,8 @@ pub fn cell(spec: &Value) -> Value {
                 }
                 let r = download_mode(&srv, name.as_bytes(), &opts, None, mode);
                 c.transitions += r.block_lens.len() as u64 + 1;
+                // the transfer must follow the ACKNOWLEDGED block size (a request above 65464 is answered with less)
+                let eff_blk = r.oack.as_ref().and_then(|o| opt_val(o, "blksize")).map(|v| v as usize).unwrap_or(512);
                 if !r.completed || r.data != data {
                     viol.push(("e2-download-content".into(), format!("{desc}: completed={} received {} bytes, file has {}; anomalies {:?}", r.completed, r.data.len(), len, &r.anomalies[..r.anomalies.len().min(3)])));
                 } else {
@@ -92,19 +94,21 @@ pub fn cells(upload: bool, thorough: bool) -> Vec<Value> {
         s.single = single;
         s.overwrite = true;
         v.push(json!({"srv": s.to_json(), "upload": upload, "plain": true, "blk": 512, "ws": 1, "lens": [0, 1, 511, 512, 513, 1024, 1537]}));
-        let blks: Vec<usize> = if thorough { vec![8, 9, 512, 1428, 65464] } else { vec![8, 1428, 65464] };
+        let blks: Vec<usize> = if thorough { vec![8, 9, 512, 1428, 65464, 65465, 65500, 70000] } else { vec![8, 1428, 65464, 65500] };
         for blk in blks {
             let wss: Vec<usize> = if thorough { vec![1, 2, 3, 4, 16] } else { vec![1, 3] };
             for ws in wss {
-                let mut lens = vec![0, 1, blk - 1, blk, blk + 1, ws * blk - 1, ws * blk, ws * blk + 1, (ws + 1) * blk, 3 * ws * blk + 1];
+                // requests above the maximum are answered with 65464: lengths are laid out around that value
+                let lb = blk.min(65464);
+                let mut lens = vec![0, 1, lb - 1, lb, lb + 1, ws * lb - 1, ws * lb, ws * lb + 1, (ws + 1) * lb, 3 * ws * lb + 1];
                 lens.sort();
                 lens.dedup();
                 // a window of large blocks must fit the SERVER's default socket receive buffer (~200 KB) on uploads and
                 // ours on downloads, otherwise the kernel drops datagrams and the run depends on 5 s retransmission timers
-                if blk * ws > 140_000 {
+                if lb * ws > 140_000 {
                     continue;
                 }
-                if blk == 65464 {
+                if blk >= 65464 {
                     lens.retain(|l| *l <= 4 * 65464 + 1);
                 }
                 v.push(json!({"srv": s.to_json(), "upload": upload, "blk": blk, "ws": ws, "lens": lens}));
